@@ -335,4 +335,325 @@ theorem ref_case (fuel : Nat) (ih : Ref fuel) :
       | break_ d => exact ⟨⟨st1, rfl⟩, rfl⟩
       | outOfFuel => exact ⟨⟨st1, rfl⟩, rfl⟩
 
+
+theorem ref_while (fuel : Nat) (ih : Ref fuel) :
+    ∀ s s' u c b e st, SameButStack s s' → s.stack = .loop :: st →
+      SameButStack (execWhile (fuel+1) s u c b e).1 (specWhile (fuel+1) (ctxOf st) s' u c b e).1 ∧
+      (execWhile (fuel+1) s u c b e).2 = (specWhile (fuel+1) (ctxOf st) s' u c b e).2 := by
+  intro s s' u c b e st h hst
+  simp only [execWhile, specWhile]
+  have b1 := (bal fuel).list (s.push .condition) c
+  have h1 := ih.list (s.push .condition) s' c (sbs_push h _)
+  simp only [push_stack, hst, ctxOf_condition, ctxOf_loop] at h1
+  obtain ⟨s1, r, st1, hx, hy⟩ := relS_cases h1
+  rw [hx] at b1
+  rw [hx, hy]
+  simp only [push_stack] at b1
+  have hp : s1.pop.stack = .loop :: st := by simp [b1, hst]
+  cases r with
+  | outOfFuel => simp only [loopStep]; first | exact ⟨⟨st1, rfl⟩, rfl⟩ | exact ⟨⟨st1, rfl⟩, trivial⟩
+  | break_ d =>
+    cases d with
+    | continue_ n =>
+      cases n with
+      | zero => simp only [loopStep]; exact ih.while_ s1.pop _ u c b e st ⟨st1, rfl⟩ hp
+      | succ n => simp only [loopStep]; first | exact ⟨⟨st1, rfl⟩, rfl⟩ | exact ⟨⟨st1, rfl⟩, trivial⟩
+    | break_ n =>
+      cases n with
+      | zero => simp only [loopStep]; first | exact ⟨⟨st1, rfl⟩, rfl⟩ | exact ⟨⟨st1, rfl⟩, trivial⟩
+      | succ n => simp only [loopStep]; first | exact ⟨⟨st1, rfl⟩, rfl⟩ | exact ⟨⟨st1, rfl⟩, trivial⟩
+    | return_ x => simp only [loopStep]; first | exact ⟨⟨st1, rfl⟩, rfl⟩ | exact ⟨⟨st1, rfl⟩, trivial⟩
+    | interrupt x => simp only [loopStep]; first | exact ⟨⟨st1, rfl⟩, rfl⟩ | exact ⟨⟨st1, rfl⟩, trivial⟩
+    | exit x => simp only [loopStep]; first | exact ⟨⟨st1, rfl⟩, rfl⟩ | exact ⟨⟨st1, rfl⟩, trivial⟩
+    | abort x => simp only [loopStep]; first | exact ⟨⟨st1, rfl⟩, rfl⟩ | exact ⟨⟨st1, rfl⟩, trivial⟩
+  | continue_ =>
+    simp only [loopStep]
+    by_cases hcnd : (s1.pop.status = 0) = ((!u) = true)
+    · have hcnd' : (({ s1 with stack := st1 } : St).status = 0) = ((!u) = true) := hcnd
+      rw [if_pos hcnd, if_pos hcnd']
+      have b2 := (bal fuel).list s1.pop b
+      have h2 := ih.list s1.pop { s1 with stack := st1 } b ⟨st1, rfl⟩
+      simp only [hp, ctxOf_loop] at h2
+      obtain ⟨s2, r2, st2, hx2, hy2⟩ := relS_cases h2
+      rw [hx2] at b2
+      rw [hx2, hy2]
+      have hp2 : s2.stack = .loop :: st := by simp only at b2; rw [b2, hp]
+      cases r2 with
+      | outOfFuel => simp only [loopStep]; first | exact ⟨⟨st2, rfl⟩, rfl⟩ | exact ⟨⟨st2, rfl⟩, trivial⟩
+      | continue_ => simp only [loopStep]; exact ih.while_ s2 _ u c b _ st ⟨st2, rfl⟩ hp2
+      | break_ d =>
+        cases d with
+        | continue_ n =>
+          cases n with
+          | zero => simp only [loopStep]; exact ih.while_ s2 _ u c b e st ⟨st2, rfl⟩ hp2
+          | succ n => simp only [loopStep]; first | exact ⟨⟨st2, rfl⟩, rfl⟩ | exact ⟨⟨st2, rfl⟩, trivial⟩
+        | break_ n =>
+          cases n with
+          | zero => simp only [loopStep]; first | exact ⟨⟨st2, rfl⟩, rfl⟩ | exact ⟨⟨st2, rfl⟩, trivial⟩
+          | succ n => simp only [loopStep]; first | exact ⟨⟨st2, rfl⟩, rfl⟩ | exact ⟨⟨st2, rfl⟩, trivial⟩
+        | return_ x => simp only [loopStep]; first | exact ⟨⟨st2, rfl⟩, rfl⟩ | exact ⟨⟨st2, rfl⟩, trivial⟩
+        | interrupt x => simp only [loopStep]; first | exact ⟨⟨st2, rfl⟩, rfl⟩ | exact ⟨⟨st2, rfl⟩, trivial⟩
+        | exit x => simp only [loopStep]; first | exact ⟨⟨st2, rfl⟩, rfl⟩ | exact ⟨⟨st2, rfl⟩, trivial⟩
+        | abort x => simp only [loopStep]; first | exact ⟨⟨st2, rfl⟩, rfl⟩ | exact ⟨⟨st2, rfl⟩, trivial⟩
+    · have hcnd' : ¬ (({ s1 with stack := st1 } : St).status = 0) = ((!u) = true) := hcnd
+      rw [if_neg hcnd, if_neg hcnd']
+      first | exact ⟨⟨st1, rfl⟩, rfl⟩ | exact ⟨⟨st1, rfl⟩, trivial⟩
+
+theorem relS_finish' (a : St) (st : List Frame) (ctx : Ctx) (r : Res) (hctx : ctx = ctxOf a.stack) :
+    RelS (finishSimple a r) (afterSimple ctx { a with stack := st } r) := relS_finish a st ctx hctx r
+
+theorem ref_cmd (fuel : Nat) (ih : Ref fuel) :
+    ∀ s s' c, SameButStack s s' → RelS (execCmd (fuel+1) s c) (specCmd (fuel+1) (ctxOf s.stack) s' c) := by
+  intro s s' c h
+  obtain ⟨st0, rfl⟩ := h
+  cases c with
+  | probe m => simp only [execCmd, specCmd]; exact relS_finish' _ st0 _ _ rfl
+  | st n => simp only [execCmd, specCmd]; exact relS_finish' _ st0 _ _ rfl
+  | brk n => simp only [execCmd, specCmd, breakBuiltin_eq]; exact relS_finish' _ st0 _ _ rfl
+  | cont n => simp only [execCmd, specCmd, breakBuiltin_eq]; exact relS_finish' _ st0 _ _ rfl
+  | ret n => simp only [execCmd, specCmd]; exact relS_finish' _ st0 _ _ rfl
+  | exit n => simp only [execCmd, specCmd]; exact relS_finish' _ st0 _ _ rfl
+  | setE on => simp only [execCmd, specCmd]; exact relS_finish' _ st0 _ _ rfl
+  | unknown => simp only [execCmd, specCmd]; exact relS_finish' _ st0 _ _ rfl
+  | tick c k =>
+    simp only [execCmd, specCmd]
+    split <;> exact relS_finish' _ st0 _ _ rfl
+  | fundef name body => simp only [execCmd, specCmd]; exact relS_finish' _ st0 _ _ rfl
+  | expErr =>
+    simp only [execCmd, specCmd]
+    rw [expansionError_eq s st0]
+    exact relS_mk ⟨st0, rfl⟩
+  | assignErr =>
+    simp only [execCmd, specCmd]
+    rw [expansionError_eq s st0]
+    exact relS_mk ⟨st0, rfl⟩
+  | redirErr k =>
+    simp only [execCmd, specCmd]
+    cases k <;> simp only <;>
+      first
+        | exact relS_mk ⟨st0, rfl⟩
+        | (rw [applyErrexit_eq ({ s with status := 2 }) st0]; exact relS_mk ⟨st0, rfl⟩)
+  | specialErr w st => simp only [execCmd, specCmd]; exact relS_finish' _ st0 _ _ rfl
+  | trapExit body => simp only [execCmd, specCmd]; exact relS_finish' _ st0 _ _ rfl
+  | group body => simp only [execCmd, specCmd]; exact ih.list s _ body ⟨st0, rfl⟩
+  | call name =>
+    simp only [execCmd, specCmd, classify_stack]
+    cases hcl : classify s name with
+    | specialColon => exact relS_finish' _ st0 _ _ rfl
+    | regularTrue => exact relS_finish' _ st0 _ _ rfl
+    | notFound => exact relS_finish' _ st0 _ _ rfl
+    | function body =>
+      simp only
+      have b1 := (bal fuel).cmd s body
+      obtain ⟨s1, r, st1, hx, hy⟩ := relS_cases (ih.cmd s { s with stack := st0 } body ⟨st0, rfl⟩)
+      rw [hx] at b1
+      rw [hx, hy]
+      simp only at b1
+      cases r with
+      | continue_ => exact relS_finish' _ st1 _ _ (by rw [b1])
+      | outOfFuel => exact relS_finish' _ st1 _ _ (by rw [b1])
+      | break_ d =>
+        cases d with
+        | return_ x =>
+          cases x with
+          | none => exact relS_finish' _ st1 _ _ (by rw [b1])
+          | some v => exact relS_finish' _ st1 _ _ (by simp only; rw [b1])
+        | continue_ n => exact relS_finish' _ st1 _ _ (by rw [b1])
+        | break_ n => exact relS_finish' _ st1 _ _ (by rw [b1])
+        | interrupt x => exact relS_finish' _ st1 _ _ (by rw [b1])
+        | exit x => exact relS_finish' _ st1 _ _ (by rw [b1])
+        | abort x => exact relS_finish' _ st1 _ _ (by rw [b1])
+  | subshell body =>
+    simp only [execCmd, specCmd]
+    have h1 := ih.list (s.push .subshell) { s with stack := st0 } body ⟨st0, rfl⟩
+    simp only [push_stack, ctxOf_subshell] at h1
+    obtain ⟨c1, r, st1, hx, hy⟩ := relS_cases h1
+    rw [hx, hy]
+    cases r with
+    | outOfFuel => exact relS_mk ⟨st0, rfl⟩
+    | continue_ =>
+      simp only [St.applyResult]
+      rw [applyErrexit_eq _ st0]
+      exact relS_mk ⟨st0, rfl⟩
+    | break_ d =>
+      simp only [applyResult_stack']
+      rw [applyErrexit_eq _ st0]
+      exact relS_mk ⟨st0, rfl⟩
+  | ifc cond body elifs els =>
+    simp only [execCmd, specCmd]
+    have b1 := (bal fuel).list (s.push .condition) cond
+    have h1 := ih.list (s.push .condition) { s with stack := st0 } cond ⟨st0, rfl⟩
+    simp only [push_stack, ctxOf_condition] at h1
+    obtain ⟨s1, r, st1, hx, hy⟩ := relS_cases h1
+    rw [hx] at b1
+    rw [hx, hy]
+    simp only [push_stack] at b1
+    have hp : s1.pop.stack = s.stack := by simp [b1]
+    cases r with
+    | continue_ =>
+      simp only
+      by_cases hz : s1.pop.status = 0
+      · have hz' : ({ s1 with stack := st1 } : St).status = 0 := hz
+        rw [if_pos hz, if_pos hz']
+        have := ih.list s1.pop { s1 with stack := st1 } body ⟨st1, rfl⟩
+        rw [hp] at this; exact this
+      · have hz' : ¬ ({ s1 with stack := st1 } : St).status = 0 := hz
+        rw [if_neg hz, if_neg hz']
+        have := ih.elifs s1.pop { s1 with stack := st1 } elifs els ⟨st1, rfl⟩
+        rw [hp] at this; exact this
+    | break_ d => exact relS_mk (sbs_pop ⟨st1, rfl⟩)
+    | outOfFuel => exact relS_mk (sbs_pop ⟨st1, rfl⟩)
+  | whileLoop u cond body =>
+    simp only [execCmd, specCmd]
+    have hw := ih.while_ (s.push .loop) { s with stack := st0 } u cond body 0 s.stack ⟨st0, rfl⟩ rfl
+    generalize execWhile fuel (s.push .loop) u cond body 0 = x at hw
+    generalize specWhile fuel (ctxOf s.stack) { s with stack := st0 } u cond body 0 = y at hw
+    obtain ⟨s1, r, e⟩ := x
+    obtain ⟨s1', r', e'⟩ := y
+    obtain ⟨⟨st1, he⟩, hr⟩ := hw
+    simp only at he hr
+    obtain ⟨rfl, rfl⟩ := Prod.mk.inj hr
+    subst he
+    cases r <;> exact relS_mk ⟨st1, rfl⟩
+  | forLoop values body =>
+    simp only [execCmd, specCmd]
+    split
+    · exact relS_mk ⟨st0, rfl⟩
+    · have hf := ih.for_ (s.push .loop) { s with stack := st0 } values body s.stack ⟨st0, rfl⟩ rfl
+      obtain ⟨s1, r, st1, hx, hy⟩ := relS_cases hf
+      rw [hx, hy]
+      exact relS_mk (sbs_pop ⟨st1, rfl⟩)
+  | caseC items =>
+    simp only [execCmd, specCmd]
+    have hw := ih.case_ s { s with stack := st0 } items false false ⟨st0, rfl⟩
+    generalize execCase fuel s items false false = x at hw
+    generalize specCase fuel (ctxOf s.stack) ({ s with stack := st0 } : St) items false false = y at hw
+    obtain ⟨s1, r, u⟩ := x
+    obtain ⟨s1', r', u'⟩ := y
+    obtain ⟨⟨st1, he⟩, hr⟩ := hw
+    simp only at he hr
+    obtain ⟨rfl, rfl⟩ := Prod.mk.inj hr
+    subst he
+    cases r with
+    | continue_ => simp only; split <;> exact relS_mk ⟨st1, rfl⟩
+    | break_ d => exact relS_mk ⟨st1, rfl⟩
+    | outOfFuel => exact relS_mk ⟨st1, rfl⟩
+
+theorem ref : ∀ fuel, Ref fuel := by
+  intro fuel
+  induction fuel with
+  | zero => exact ref_zero
+  | succ fuel ih =>
+    exact ⟨ref_cmd fuel ih, ref_elifs fuel ih, ref_while fuel ih, ref_for fuel ih, ref_case fuel ih,
+      ref_list fuel ih, ref_item fuel ih, ref_aor fuel ih, ref_pipe fuel ih, ref_cmds fuel ih,
+      ref_members fuel ih⟩
+
+
+theorem ctxOf_nil : ctxOf [] = ⟨0, false⟩ := rfl
+theorem ctxOf_trap : ctxOf [.trap] = ⟨0, false⟩ := by
+  simp [ctxOf, loops, Frame.retainsContext]
+
+theorem ref_script (fuel : Nat) :
+    ∀ s s' ls, SameButStack s s' → s.stack = [] → RelS (runScript fuel s ls) (specScript fuel s' ls) := by
+  induction fuel with
+  | zero => intro s s' ls h _; simp only [runScript, specScript]; exact relS_mk h
+  | succ fuel ih =>
+    intro s s' ls h hs
+    cases ls with
+    | nil => simp only [runScript, specScript]; exact relS_mk h
+    | cons l rest =>
+      cases l with
+      | syntaxError =>
+        obtain ⟨st0, rfl⟩ := h
+        simp only [runScript, specScript, applyResult_stack']
+        exact relS_mk ⟨st0, rfl⟩
+      | cmds l =>
+        simp only [runScript, specScript]
+        have b1 := (bal fuel).list s l
+        have h1 := (ref fuel).list s s' l h
+        rw [hs, ctxOf_nil] at h1
+        obtain ⟨s1, r, st1, hx, hy⟩ := relS_cases h1
+        rw [hx] at b1
+        rw [hx, hy]
+        simp only at b1
+        cases r with
+        | continue_ => exact ih s1 _ rest ⟨st1, rfl⟩ (b1.trans hs)
+        | break_ d => simp only [applyResult_stack']; exact relS_mk ⟨st1, rfl⟩
+        | outOfFuel => simp only [applyResult_stack']; exact relS_mk ⟨st1, rfl⟩
+
+theorem ref_exitTrap (fuel : Nat) (s : St) (st0 : List Frame) (hs : s.stack = []) :
+    RelS (runExitTrap fuel s) (specExitTrap fuel { s with stack := st0 }) := by
+  unfold runExitTrap specExitTrap
+  cases ht : s.exitTrap with
+  | none => simp only [ht]; exact relS_mk ⟨st0, by rw [← ht]⟩
+  | some body =>
+    simp only [ht]
+    have h1 := (ref fuel).list (s.push .trap) { s with stack := st0 } body ⟨st0, rfl⟩
+    simp only [push_stack, hs, ctxOf_trap, ht] at h1
+    obtain ⟨s1, r, st1, hx, hy⟩ := relS_cases h1
+    rw [hx, hy]
+    cases r with
+    | outOfFuel => exact relS_mk (sbs_pop ⟨st1, rfl⟩)
+    | continue_ =>
+      simp only [St.applyResult]
+      exact relS_mk ⟨st1, rfl⟩
+    | break_ d =>
+      cases d with
+      | interrupt x =>
+        cases x with
+        | none => exact relS_mk (sbs_pop ⟨st1, rfl⟩)
+        | some v =>
+          simp only [applyResult_stack']
+          exact relS_mk ⟨st1, rfl⟩
+      | continue_ n => simp only [St.applyResult, Divert.exitStatus]; exact relS_mk ⟨st1, rfl⟩
+      | break_ n => simp only [St.applyResult, Divert.exitStatus]; exact relS_mk ⟨st1, rfl⟩
+      | return_ x =>
+        cases x <;> simp only [St.applyResult, Divert.exitStatus] <;> exact relS_mk ⟨st1, rfl⟩
+      | exit x =>
+        cases x <;> simp only [St.applyResult, Divert.exitStatus] <;> exact relS_mk ⟨st1, rfl⟩
+      | abort x =>
+        cases x <;> simp only [St.applyResult, Divert.exitStatus] <;> exact relS_mk ⟨st1, rfl⟩
+
+theorem ref_shell (fuel : Nat) (s : St) (script : List Line) (hs : s.stack = []) :
+    RelS (runShell fuel s script) (specShell fuel s script) := by
+  unfold runShell specShell
+  have b1 : (runScript fuel s script).1.stack = s.stack := by
+    induction fuel generalizing s script with
+    | zero => simp [runScript]
+    | succ fuel ih =>
+      cases script with
+      | nil => simp [runScript]
+      | cons l rest =>
+        cases l with
+        | syntaxError => simp [runScript]
+        | cmds l =>
+          simp only [runScript]
+          have h := (bal fuel).list s l
+          generalize execList fuel s l = x at *
+          obtain ⟨s1, r⟩ := x
+          cases r with
+          | continue_ => simp only; rw [ih s1 rest (h.trans hs)]; exact h
+          | break_ d => simpa using h
+          | outOfFuel => simpa using h
+  obtain ⟨s1, r, st1, hx, hy⟩ := relS_cases (ref_script fuel s s script (sbs_refl s) hs)
+  rw [hx] at b1
+  rw [hx, hy]
+  simp only at b1
+  have hs1 : s1.stack = [] := b1.trans hs
+  cases r with
+  | outOfFuel => exact relS_mk ⟨st1, rfl⟩
+  | continue_ =>
+    simp only
+    obtain ⟨s2, r2, st2, hx2, hy2⟩ := relS_cases (ref_exitTrap fuel s1 st1 hs1)
+    rw [hx2, hy2]
+    cases r2 <;> exact relS_mk ⟨st2, rfl⟩
+  | break_ d =>
+    cases d with
+    | abort e => exact relS_mk ⟨st1, rfl⟩
+    | _ =>
+      simp only
+      obtain ⟨s2, r2, st2, hx2, hy2⟩ := relS_cases (ref_exitTrap fuel s1 st1 hs1)
+      rw [hx2, hy2]
+      cases r2 <;> exact relS_mk ⟨st2, rfl⟩
+
 end YashModel.Exec
